@@ -40,6 +40,16 @@ def run (cfg : Cfg) (sha : String → String) : List (Nat × Op) → World → W
     let (w2, os) := run cfg sha rest w1
     (w2, o :: os)
 
+/-- two overlapping posts of the SAME authorization response. Every session-store method call is atomic (the
+    nonce is checked and deleted by ONE `GetAndDelete`), so whatever the interleaving the outcome is that of the serial
+    order in which the two `GetAndDelete` calls happen: `firstIsA` says whose comes first. Returns the outcomes of
+    request A and request B. -/
+def raceAuthorize (cfg : Cfg) (w : World) (t : Nat) (r : AuthResp) (firstIsA : Bool) :
+    World × Res AuthOut × Res AuthOut :=
+  let (w1, o1) := authorizeResponse cfg w t r
+  let (w2, o2) := authorizeResponse cfg w1 t r
+  if firstIsA then (w2, o1, o2) else (w2, o2, o1)
+
 /-- the world after a history -/
 def after (cfg : Cfg) (sha : String → String) (h : List (Nat × Op)) (w : World) : World := (run cfg sha h w).1
 
